@@ -171,7 +171,7 @@ public:
         _is_worker_running.store(true);
 
         // Running
-        while (QUILL_LIKELY(_is_worker_running.load(std::memory_order_relaxed)))
+        while (QUILL_LIKELY(_is_worker_running.load(std::memory_order_acquire)))
         {
           // main loop
           QUILL_TRY { _poll(); }
